@@ -291,7 +291,7 @@ func FuzzHelpers(f *testing.F) {
 func TestProp(t *testing.T) {
 	r := core.Start(t, "C15")
 	defer r.Finish()
-	r.Rule("cases = one call (group) of a string helper against a byte-level reference: Substr (PHP-style rule, out of range = empty; offsets and lengths up to the int limits), SplitAtIndex (exactly two parts that concatenate to the input), PadLeft/PadRight/Pad (length, position, padding = prefix of the repeated token, fields up to 70 KB), Wrap + Unwrap round trip, Unwrap on arbitrary strings (unchanged unless wrapped), WrapAllRune, ToLower/ToUpper/Capitalize vs unicode per rune, ReverseStr (rune reversal, involution), CamelCase/SnakeCase/KebabCase clauses on words of ASCII letters/digits joined by runs of ' -_&'; non-trivial = input of >= 2 bytes (resp. padding needed / really wrapped / >= 2 words); distinct by hash of the case")
+	r.Rule("cases = one call (group) of a string helper against a byte-level reference: Substr (PHP-style rule, out of range = empty; offsets and lengths up to the int limits), SplitAtIndex (exactly two parts that concatenate to the input), PadLeft/PadRight/Pad (length, position, padding = prefix of the repeated token, fields up to 70 KB), Wrap + Unwrap round trip, Unwrap on arbitrary strings (unchanged unless wrapped), WrapAllRune, ToLower/ToUpper/Capitalize vs unicode per rune (every code point of the Latin..CJK-symbols range and of the cased blocks beyond, alone and between letters), ReverseStr (rune reversal, involution), CamelCase/SnakeCase/KebabCase clauses on words of ASCII letters/digits joined by runs of ' -_&'; non-trivial = input of >= 2 bytes (resp. padding needed / really wrapped / >= 2 words); distinct by hash of the case")
 
 	alpha := []string{"a", "B", "é", "'", "*", " "}
 	toks := []string{"'", "*", "''", "'*", "é", "a", "aB"}
@@ -332,6 +332,27 @@ func TestProp(t *testing.T) {
 			emit(Case{Fn: "Unwrap", S: h, Tok: ""})
 		}
 		r.Exhaustive(fmt.Sprintf("all strings of <=%d symbols over {a,B,é,',*,space} x offsets/lengths/indices/sizes in len±3 x 7 tokens (Substr, SplitAtIndex, Pad*, Wrap/Unwrap, WrapAllRune, case mapping)", L), int64(len(ss)))
+		// case mapping rune by rune: every code point of the range alone, after an ASCII letter and
+		// before one (a table-free fast path for a block of code points is right for the letters of
+		// the block and wrong for the one symbol among them)
+		hiRune := rune(r.Pick(0x3000, 0x20000))
+		var nr int64
+		for cp := rune(0); cp < hiRune; cp++ {
+			if cp >= 0xD800 && cp <= 0xDFFF {
+				continue
+			}
+			emit(Case{Fn: "Case", S: hx(string(cp))})
+			emit(Case{Fn: "Case", S: hx("A" + string(cp) + "b")})
+			nr++
+		}
+		for _, blk := range [][2]rune{{0xA640, 0xA7FF}, {0xFF00, 0xFFEF}, {0x10400, 0x104FF}, {0x1E900, 0x1E95F}} {
+			for cp := blk[0]; cp <= blk[1] && hiRune <= 0x3000; cp++ {
+				emit(Case{Fn: "Case", S: hx(string(cp))})
+				emit(Case{Fn: "Case", S: hx("A" + string(cp) + "b")})
+				nr++
+			}
+		}
+		r.Exhaustive(fmt.Sprintf("ToLower/ToUpper/Capitalize on every code point below U+%04X (plus the cased blocks A640-A7FF, FF00-FFEF, 10400-104FF, 1E900-1E95F) alone and between ASCII letters", hiRune), nr)
 		// very wide fields (tens of KiB) with tokens of 1..7 bytes: the pattern must not drift
 		for _, tk := range []string{"*", "ab", "_-|", "<=+=>", "abcdef", "1234567", "é.", "世界!"} {
 			for _, size := range []int{4095, 8193, 20001, 30000, 70001} {
